@@ -171,6 +171,40 @@ def _write(det, bucket: str, arr) -> None:
         raise ValueError(bucket)
 
 
+def _write_scene(det, v: float) -> None:
+    import xarray as xr
+
+    src = xr.Dataset(
+        {
+            "x": ("ref", [v, v + 1.0]),
+            "y": ("ref", [v + 2.0, v + 3.0]),
+            "weight": ("ref", [1.0, 2.0]),
+            "flux": (("ref", "wavelength"), [[v, v * 2.0, 0.5], [1.0, 2.0, v]]),
+        },
+        coords={"ref": [0, 1], "wavelength": [400.0, 500.0, 600.0]},
+    )
+    det.scene.add_source(src)
+
+
+def _write_data(det, tag: str, v: float, step: int) -> None:
+    import xarray as xr
+
+    det.data[f"/probe/{tag}"] = xr.DataTree(xr.Dataset({"v": ("k", [v, float(step)])}, coords={"k": [0, 1]}))
+
+
+def tree_snapshot(det) -> dict:
+    out = {}
+    try:
+        out["scene"] = det.scene.data.copy()
+    except Exception:
+        out["scene"] = None
+    try:
+        out["data"] = det.data.copy()
+    except Exception:
+        out["data"] = None
+    return out
+
+
 def P(detector, **kw) -> None:  # noqa: N802 - referenced from YAML as pyxsim.probes.P
     sim = sched.current_sim()
     if sim is not None:
@@ -253,7 +287,14 @@ def P(detector, **kw) -> None:  # noqa: N802 - referenced from YAML as pyxsim.pr
     ev["v"] = v
     rows, cols = ev["shape"]
     for b in kw.get("write") or []:
-        _write(detector, b, ref.bucket_array(b, v, rows, cols, kw))
+        if b == "scene":
+            _write_scene(detector, v)
+        elif b == "data":
+            _write_data(detector, tag, v, clk["pipeline_count"])
+        else:
+            _write(detector, b, ref.bucket_array(b, v, rows, cols, kw))
+    if kw.get("snap_trees"):
+        ev["trees"] = tree_snapshot(detector)
 
     # in-place mutation of own arguments (a misbehaving but legal user model)
     if kw.get("mutate"):
